@@ -4,6 +4,7 @@ mod core_props;
 mod enum_props;
 mod optimal_props;
 mod gen;
+mod history_props;
 mod rng;
 mod space;
 mod tt;
@@ -32,6 +33,7 @@ fn main() {
         "C04" => core_props::c04(&a),
         "C05" => core_props::c05(&a),
         "C06" => enum_props::c06(&a),
+        "C16" => history_props::c16(&a),
         "C19" => cnf_props::c19(&a),
         "C20" => optimal_props::c20(&a),
         other => { eprintln!("unknown property {other}"); std::process::exit(2); }
